@@ -11,9 +11,8 @@ set_option linter.unusedVariables false
 namespace Panqec.Toric2DCode
 open Panqec.Lat2D
 
-/-- all stabilizer locations but one vertex and one face -/
-def selStabs (Lx Ly : Nat) : List Coord :=
-  (stabs Lx Ly).filter fun s => s != [0, 0] && s != [1, 1]
+/-! `selStabs` (all stabilizer locations but one vertex and one face): defined in
+    `Model/Lattices/Toric2DCode.lean` (linked into the driver, op `rankfamily`) -/
 
 theorem mem_selStabs {Lx Ly : Nat} {s : Coord} :
     s ∈ selStabs Lx Ly ↔ s ∈ stabs Lx Ly ∧ s ≠ [0, 0] ∧ s ≠ [1, 1] := by
